@@ -164,7 +164,7 @@ def priority(ctx):
             return
         v = R.v
         rr = key(R.refresh_req)
-        gnt_states = {s for s in R.fsm.states if v.asserted(v.fsm_leaves(R.fsm, s), R.refresh_gnt)}
+        gnt_states = R.refresh_states
         ent = [(s, l) for (s, d, l) in R.edges if d in gnt_states and s not in gnt_states]
         if not ob.need(len(ent) >= 1, "no edge into the refresh-grant state"):
             continue
@@ -175,7 +175,8 @@ def priority(ctx):
                 ob.refute("bm-refresh-entry:%s" % s, "the bank machine enters its refresh state from %s under %s, not under refresh_req alone: "
                           "traffic that keeps the extra condition false postpones refresh indefinitely" % (s, sorted(g)), l.loc)
             others = [m for m in v.fsm_leaves(R.fsm, s) if m is not l]
-            bad = [m for m in others if "~" + rr not in v.guard_keys(m, False)]
+            bad = [m for m in others if "~" + rr not in v.guard_keys(m, False)
+                   and not (m.kind == "assign" and key(m.target) == key(R.refresh_gnt))]      # granting at once is not "other work"
             if bad:
                 ob.refute("bm-refresh-priority:%s" % s, "state %s does other work while refresh_req is high (%s): the refresh request does not "
                           "take priority" % (s, bad[0]), bad[0].loc)
